@@ -261,8 +261,8 @@ def evalVarEvaluation (ctx : Ctx) : PM Expr := do
 
 mutual
 
-/-- `evaluateValues` -/
-def evalValues (fuel : Nat) (ctx : Ctx) : PM (List Expr) :=
+/-- `evaluateValues`; `first` = no value has been parsed before this one -/
+def evalValues (fuel : Nat) (ctx : Ctx) (first : Bool := true) : PM (List Expr) :=
   match fuel with
   | 0 => div
   | fuel + 1 => do
@@ -272,10 +272,11 @@ def evalValues (fuel : Nat) (ctx : Ctx) : PM (List Expr) :=
       | .call _ rets _ => rets.length
       | _ => -1
     if retLen == 0 then err else
+    if retLen > 1 && !first then err else
     if next.ty != TT_COMMA then pure [e] else do
       let _ ← eat
       if retLen > 1 then err else do
-        let rest ← evalValues fuel ctx
+        let rest ← evalValues fuel ctx false
         pure (e :: rest)
 
 /-- argument list of a builtin: expressions separated by commas up to (not including) `)` -/
@@ -479,7 +480,9 @@ def evalSingle (fuel : Nat) (ctx : Ctx) : PM Expr :=
     else if t.ty == TT_OPENING_SQUARE_BRACKET then evalSliceInstantiation fuel ctx
     else if t.ty == TT_INPUT then do
       let args ← evalBuiltin fuel ctx TT_INPUT 0 (some 1)
-      pure (.input args.head?)
+      match args with
+      | [] => pure (.input none)
+      | p :: _ => if !(Expr.valueType p).isString then err else pure (.input (some p))
     else if t.ty == TT_READ then do
       let args ← evalBuiltin fuel ctx TT_READ 1 (some 1)
       match args with
@@ -725,7 +728,7 @@ def evalSliceAssignment (fuel : Nat) (ctx : Ctx) : PM Stmt := do
     let a ← eat
     if a.ty != TT_ASSIGN_OPERATOR then err else
     let value ← evalExpression fuel ctx
-    if v.vt.dt != (Expr.valueType value).dt then err else
+    if !((Expr.valueType value).equals ⟨v.vt.dt, false⟩) then err else
     pure (.sliceAssign v index value)
 
 /-- `evaluateIncrementDecrement` -/
@@ -905,6 +908,7 @@ def evalSwitch (fuel : Nat) (ctx : Ctx) : PM Stmt :=
     let t ← peek
     let tag ← (if t.ty == TT_OPENING_CURLY_BRACKET then pure (Expr.boolLit true) else evalExpression fuel ctx)
     if (Expr.valueType tag).isSlice then err else
+    if (Expr.valueType tag).dt == .unknown || (Expr.valueType tag).dt == .multiple then err else
     let b ← eat
     if b.ty != TT_OPENING_CURLY_BRACKET then err else
     let n ← eat
